@@ -13,6 +13,7 @@ structure Lbl where
   stored : Option Mark                -- the mark carried by a `withMark` layer
   isSig : Option (Bool × Bool × Bool) -- what an errno-like layer's Is method answers for ErrPermission/ErrExist/ErrNotExist
   multi : Bool                        -- a multi-cause layer (its children are branches, not a cause)
+  stSig : Option (Nat × Str × Nat)    -- a gRPC *status.Error layer: what its Is method compares
   deriving DecidableEq, Repr, Inhabited
 
 def storedMark : Err → Option Mark
@@ -28,7 +29,12 @@ def isMultiNode : Err → Bool
   | .multi .. => true
   | _ => false
 
-def label (e : Err) : Lbl := ⟨text e, typeMark Full e, origTypeName e, storedMark e, isSigOf e, isMultiNode e⟩
+def stSigOf : Err → Option (Nat × Str × Nat)
+  | .leaf _ (.grpcStatus c m nd) => some (c, m, nd)
+  | _ => none
+
+def label (e : Err) : Lbl :=
+  ⟨text e, typeMark Full e, origTypeName e, storedMark e, isSigOf e, isMultiNode e, stSigOf e⟩
 
 inductive TTree
   | node (l : Lbl) (kids : List TTree)
@@ -75,6 +81,9 @@ def leafStable : LeafKind → Bool
   -- an OpaqueErrno (errno received from another architecture) is re-sent under its own type
   -- name, for which no decoder exists: its `Is` method is lost on the next hop (see DESIGN, D11)
   | .opaqueErrno .. => false
+  -- a status with code OK is not an error (Status.Err() returns nil)
+  | .grpcStatus c _ _ => c ≠ 0
+  | .gogoStatus c _ _ => c ≠ 0
   | _ => true
 
 /-- `ct` is the Error() text of the cause -/
@@ -84,7 +93,9 @@ def wrapStable (k : WrapKind) (ct : Str) : Bool :=
   | .user u msg => userOK u &&
       (if u.style = 0 then msg ≠ [] else if u.style = 1 then msg ≠ colonSp ++ ct else true)
   | .fmtWrapError msg => msg ≠ colonSp ++ ct
-  | .withContext tags _ => tags ≠ []     -- WithContextTags never attaches an empty tag set
+  -- WithContextTags never attaches an empty tag set, and a logtags buffer has distinct keys
+  | .withContext tags _ => tags ≠ [] && dedupTags tags = tags
+  | .withMark _ tys => tys ≠ []          -- a mark carries at least the type of its reference
   | _ => true
 
 /-- multi-cause layers have at least one branch (Join of nothing is nil; a foreign
